@@ -208,18 +208,17 @@ impl QueryNode {
             // Map metadata-selected chunks into the logical `metrics` table used by SQL.
             // Execute query with or without adaptive indexing while holding a stable
             // `metrics` table binding for this request.
-            let results = self
+            let plan = self
                 .engine
-                .with_metrics_table(&chunk_paths, || async {
-                    if let Some(ref controller) = self.adaptive_index_controller {
-                        self.engine
-                            .execute_with_indexes(sql, tenant_id, controller.clone())
-                            .await
-                    } else {
-                        self.engine.execute(sql).await
-                    }
-                })
+                .plan_with_metrics_table(&chunk_paths, sql)
                 .await?;
+            let results = if let Some(ref controller) = self.adaptive_index_controller {
+                self.engine
+                    .execute_plan_with_indexes(plan, tenant_id, controller.clone())
+                    .await?
+            } else {
+                self.engine.execute_plan(plan).await?
+            };
 
             // Deduplicate if any shard is in dual-write phase
             let deduped = if needs_dedup {
